@@ -387,6 +387,9 @@ def norm_full_at(repo: Repo, gen: FunctionInfo, k: int) -> Tuple[Dict[str, Optio
             r = r[1][k]
         elif k != 0:
             raise AnchorError('generator does not return a tuple')
+        rs = rowsum_form(repo, gen, r)
+        if rs is not None:
+            return rs
         conds = [(e.data[0], e.data[1]) for e in p.events if e.kind == 'assume']
         shapes.append(_norm_shape(r, conds) + (conds,))
     if not shapes:
@@ -414,6 +417,56 @@ def norm_full_at(repo: Repo, gen: FunctionInfo, k: int) -> Tuple[Dict[str, Optio
     if flips % 2:
         out = {S: out[E], E: out[S]}
     return out, A
+
+
+def rowsum_form(repo: Repo, gen: FunctionInfo, r: Term):
+    """Normalisation written as the reciprocal of the row sums of the masker's own 0/1 matrix:
+    ``1 / C.sum(dim=1)`` with ``theta = C @ blend``.  The constant at an output position is
+    then 1/(number of parameters reaching it), in C's own coordinates: it is the full count
+    where the row of C is full (ones in both extreme columns) -- unless the vector is flipped
+    an odd number of times afterwards.  Returns (pos -> full?, A) or None for other forms."""
+    from .util import attr_classes
+    t, flips = r, 0
+    while True:
+        c, mc = callee(t), method_call(t)
+        if c in ('torch.flip', 'torch.flipud'):
+            flips, t = flips + 1, t[2][0]
+        elif mc and mc[1] == 'flip':
+            flips, t = flips + 1, mc[0]
+        elif mc and mc[1] in ('float', 'to', 'clone', 'detach', 'contiguous', 'double', 'type'):
+            t = mc[0]
+        else:
+            break
+    if not (t[0] == 'bin' and t[1] == '/' and poly.is_const(poly.to_poly(t[2])) == 1):
+        return None
+    den = t[3]
+    c, mc = callee(den), method_call(den)
+    if c == 'torch.sum' and den[2]:
+        M, rest, kws = den[2][0], den[2][1:], dict(den[3])
+    elif mc and mc[1] == 'sum':
+        M, rest, kws = mc[0], mc[2], dict(mc[3])
+    else:
+        return None
+    if not (M[0] == 'attr' and M[1][0] == 'attr' and M[1][1] == SELF) or gen.cls is None:
+        return None
+    dim = kws.get('dim', rest[0] if rest else None)
+    mcls = [k for k in attr_classes(repo, gen.cls, M[1][2]) if repo.find_getter(k, 'theta')]
+    if not mcls:
+        return None
+    mi = analyse_masker(repo, mcls[0])
+    if mi.error or mi.c is None or mi.c_name != M[2]:
+        raise AnchorError(f'{show(M)} is not the matrix that {mcls[0].name}.theta multiplies by')
+    if dim not in (('const', 1), ('const', -1)):
+        raise AnchorError(f'{show(den)} does not sum over the parameters reaching each position '
+                          f'(theta = C @ blend sums over dim 1)')
+    out = {}
+    for pos in (S, E):
+        a, b = mi.c.at[(pos, S)], mi.c.at[(pos, E)]
+        out[pos] = True if (a is True and b is True) else False if (a is False or b is False) \
+            else None
+    if flips % 2:
+        out = {S: out[E], E: out[S]}
+    return out, ('sym', f'columns of {M[2]}')
 
 
 def _norm_shape(best: Term, conds=()):
